@@ -170,6 +170,31 @@ func wasmGen(g *h.Gen) {
 		g.Emit("wasm ev %s", strings.Join(ops, "; "))
 	}
 
+	// ---- the 16 basic colours as foreground, background and underline colour (exhaustive), then all 256 palette entries
+	{
+		ops := []string{"size 16 3"}
+		for i := 0; i < 16; i++ {
+			c := uint64(tcell.ColorBlack) + uint64(i)
+			ops = append(ops, fmt.Sprintf("sc %d 0 65 - %d,0,0,0,0,-,-", i, c), fmt.Sprintf("sc %d 1 66 - 0,%d,0,0,0,-,-", i, c),
+				fmt.Sprintf("sc %d 2 67 - 0,0,0,1,%d,-,-", i, c))
+		}
+		g.Emit("wasm draw %s; show", strings.Join(ops, "; "))
+		ops = []string{"size 16 16"}
+		for i := 0; i < 256; i++ {
+			ops = append(ops, fmt.Sprintf("sc %d %d 65 - %d,%d,0,0,0,-,-", i%16, i/16, uint64(tcell.PaletteColor(i)), uint64(tcell.PaletteColor(255-i))))
+		}
+		g.Emit("wasm draw %s; show", strings.Join(ops, "; "))
+		// every attribute bit and underline style
+		ops = []string{"size 8 2"}
+		for i := 0; i < 7; i++ {
+			ops = append(ops, fmt.Sprintf("sc %d 0 65 - 0,0,%d,0,0,-,-", i, 1<<i))
+		}
+		for i := 0; i < 6; i++ {
+			ops = append(ops, fmt.Sprintf("sc %d 1 66 - 0,0,0,%d,%d,-,-", i, i, uint64(tcell.NewRGBColor(1, 2, 3))))
+		}
+		g.Emit("wasm draw %s; show", strings.Join(ops, "; "))
+	}
+
 	// ---- draw histories
 	for i := 0; i < g.N(220, 5000); i++ {
 		var ops []string
@@ -229,7 +254,6 @@ func wasmGen(g *h.Gen) {
 		ops = append(ops, "show")
 		g.Emit("wasm draw %s", strings.Join(ops, "; "))
 	}
-	_ = tcell.KeyRune
 }
 
 func init() {
